@@ -70,3 +70,14 @@ package schemabuilder
 // With unique keys the end cursor of a page names exactly one position, so the window computed for
 // after=endCursor starts right behind the previous page (and symmetrically for before=startCursor).
 //@ lemma cursor_names_position: forall L []Edge, e int :: (forall i int, j int :: 0 <= i && i < j && j < len(L) ==> L[i].Cursor != L[j].Cursor) && 0 <= e && e < len(L) ==> cursorAt(L, L[e].Cursor, e)
+
+// ---- C14: non-null enforcement on resolver results. A field advertised as non-null never yields a nil pointer
+// without an error: on the success path of extractResultAndErr the result is not a nil pointer whenever the
+// advertised return type is NonNull. reflectValueOf / reflectKind / reflectIsNil are the (uninterpreted) reflect
+// library functions the body calls; 22 is reflect.Ptr.
+//@ func funcContext.extractResultAndErr
+//@   requires funcCtx != nil
+//@   assume funcCtx.hasRet ==> len(out) >= 1
+//@   assume funcCtx.hasError ==> len(out) >= (ite(funcCtx.hasRet, 2, 1))
+//@   ensures err == nil && (retType is *graphql.NonNull) ==> !(reflectKind(reflectValueOf(result)) == 22 && reflectIsNil(reflectValueOf(result)))
+//@   ensures err == nil && !funcCtx.hasRet ==> result == any(true)
